@@ -190,13 +190,13 @@ var c16IPs = []string{
 	"9.255.255.255", "10.0.0.0", "10.255.255.255", "11.0.0.0", "172.15.255.255", "172.16.0.0", "172.31.255.255", "172.32.0.0",
 	"192.167.255.255", "192.168.0.0", "192.168.255.255", "192.169.0.0", "126.255.255.255", "127.0.0.1", "127.255.255.255", "128.0.0.0",
 	"169.253.255.255", "169.254.0.0", "169.254.169.254", "169.255.0.0", "223.255.255.255", "224.0.0.0", "239.255.255.255", "240.0.0.1",
-	"0.0.0.0", "0.0.0.1", "8.8.8.8", "203.0.113.7", "198.51.100.4", "1.1.1.1",
+	"0.0.0.0", "0.0.0.1", "8.8.8.8", "203.0.113.7", "203.0.113.200", "10.9.9.9", "10.0.9.9", "2001:db8:1::1", "198.51.100.4", "1.1.1.1",
 	"::", "::1", "::2", "fe80::1", "febf::1", "fec0::1", "fc00::1", "fdff::1", "fbff::1", "fe00::1", "ff00::1", "ff02::1", "2001:db8::1", "2606:4700::1111",
 	"::ffff:10.0.0.1", "::ffff:127.0.0.1", "::ffff:8.8.8.8", "::ffff:169.254.169.254", "::ffff:192.168.1.1", "::ffff:203.0.113.7",
 }
 
 var c16RuleHosts = []string{"a.example", "*.a.example", "b.test", "*.b.test", "*", "example", "*.example", "evil.test", "A.Example", "sub.a.example"}
-var c16RuleNets = []string{"10.0.0.0/8", "203.0.113.0/24", "203.0.113.7", "8.8.8.8", "2001:db8::/32", "127.0.0.0/8", "0.0.0.0/0", "::/0", "198.51.100.0/24", "192.168.1.1", "2606:4700::1111"}
+var c16RuleNets = []string{"10.0.0.0/16", "10.0.0.0/8", "10.0.0.0/24", "203.0.113.0/28", "2001:db8::/48", "10.0.0.0/8", "203.0.113.0/24", "203.0.113.7", "8.8.8.8", "2001:db8::/32", "127.0.0.0/8", "0.0.0.0/0", "::/0", "198.51.100.0/24", "192.168.1.1", "2606:4700::1111"}
 
 func c16URL(r *vlib.Rand, scheme string, host string) string {
 	h := host
@@ -237,6 +237,17 @@ func c16Policy(r *vlib.Rand) (string, egPolicy) {
 	mk := func(n int) ([]string, []egRule) {
 		var raws []string
 		var rules []egRule
+		if r.Chance(0.15) {
+			// nested ranges with one base address, narrower or wider first: every rule of the list counts
+			fam := vlib.Pick(r, [][]string{{"10.0.0.0/24", "10.0.0.0/16", "10.0.0.0/8"}, {"203.0.113.0/28", "203.0.113.0/24"}, {"2001:db8::/48", "2001:db8::/32"}, {"*.a.example", "a.example", "sub.a.example"}})
+			fam = append([]string(nil), fam...)
+			vlib.Shuffle(r, fam)
+			for _, raw := range fam[:r.Range(2, len(fam))] {
+				raws = append(raws, raw)
+				rules = append(rules, parseRule(raw))
+			}
+			return raws, rules
+		}
 		for i := 0; i < n; i++ {
 			raw := vlib.Pick(r, c16RuleHosts)
 			if r.Bool() {
